@@ -46,3 +46,27 @@ Definition map_partition_ok (orig : list nat) (smap : list (nat * list nat)) : b
 Definition entries_ok (orig_entries : nat -> list nat) (smap : list (nat * list nat)) (final_entries : nat -> list nat) : bool :=
   forallb (fun p => perm_eqb (final_entries (fst p)) (flat_map orig_entries (snd p))) smap.
 Definition subset_ok (must keep : list nat) : bool := forallb (fun x => existsb (Nat.eqb x) keep) must.
+
+(* ---- a pipe drawn with vertices: the polyline start -> vertices -> end.  Segments are axis-parallel in the generated cases, so that the
+        Euclidean length is |dx| + |dy| and everything stays rational.  split_pipe / break_pipe put the new junction at the requested
+        fraction of the DRAWN length, give the vertices before it to the first part and the others to the second. ---- *)
+Definition pt := (Q * Q)%type.
+Definition seglen (a b : pt) : Q := Qabs (fst b - fst a) + Qabs (snd b - snd a).
+Fixpoint polylen (p : list pt) : Q :=
+  match p with
+  | a :: ((b :: _) as r) => seglen a b + polylen r
+  | _ => 0
+  end.
+Definition pt_eqb (a b : pt) : bool := Qeq_bool (fst a) (fst b) && Qeq_bool (snd a) (snd b).
+Fixpoint pts_eqb (a b : list pt) : bool :=
+  match a, b with [], [] => true | x :: r, y :: s => pt_eqb x y && pts_eqb r s | _, _ => false end.
+(* the two parts as the implementation returns them: [start; first vertices ...; J] and [J'; last vertices ...; end] (J' = J, or the second
+   junction of a break, at the same place).  Property: no vertex is lost or moved, the junction(s) close the two polylines at one point,
+   and the drawn lengths are f * L and (1 - f) * L *)
+Definition poly_split_ok (orig part1 part2 : list pt) (f tol : Q) : bool :=
+  let L := polylen orig in
+  let inner1 := removelast (tl part1) in let inner2 := removelast (tl part2) in
+  pts_eqb (inner1 ++ inner2) (removelast (tl orig))
+  && pt_eqb (hd (0, 0) part1) (hd (0, 0) orig) && pt_eqb (last part2 (0, 0)) (last orig (0, 0))
+  && pt_eqb (last part1 (0, 0)) (hd (0, 0) part2)
+  && closeq (polylen part1) (L * f) (tol * (1 + L)) && closeq (polylen part2) (L * (1 - f)) (tol * (1 + L)).
